@@ -95,6 +95,12 @@ COMB = [
     ('HvTruthNot', W3, 1, ['if not xa:', '    self.r.put(1)', 'else:', '    self.r.put(0)']),
     ('HvTruthMix', W3, 1, ['if xa and (xb or not xc):', '    self.r.put(1)', 'else:', '    self.r.put(0)']),
     ('HvDangling', W3, 2, ['t = 0', 'if xa > 3:', '    if xb > 3:', '        t = 1', 'else:', '    t = 2', 'self.r.put(t)']),
+    ('HvChained', W3, 1, ['if 2 <= xa < 6:', '    self.r.put(1)', 'else:', '    self.r.put(0)']),
+    ('HvChained3', W3, 1, ['if xa < xb <= xc:', '    self.r.put(1)', 'else:', '    self.r.put(0)']),
+    ('HvPortMulConst', W3, 6, ['self.r.put((self.a.get() * 3) >> 1)']),
+    ('HvPortAddConst', W3, 4, ['self.r.put((self.a.get() + 3) // 4 + (self.b.get() + 5) // 2)']),
+    ('HvPortCmpConst', W3, 1, ['if self.a.get() * 2 > 7:', '    self.r.put(1)', 'else:', '    self.r.put(0)']),
+    ('HvPortShlConst', W3, 8, ['self.r.put((self.a.get() << 2) + (self.b.get() * 5))']),
     ('HvNested', W3, 4, ['if xa > 3:', '    if xb > 3:', '        self.r.put(1)', '    else:', '        if xc > 3:', '            self.r.put(2)', '        else:', '            self.r.put(3)',
                          'else:', '    self.r.put(4 + (xb & 1))']),]
 
@@ -294,6 +300,11 @@ class HvTwoFeedback(Logic):
         Reg(self, 'reg', w, q)
 
 
+class HvInvChild(Not):
+    """a leaf that inherits propagate() from a library block"""
+    pass
+
+
 class HvInnerName(Logic):
     """an internal wire that carries the same short name as the outer wire attached to a port"""
     def __init__(self, parent, name, t, r):
@@ -389,6 +400,11 @@ def cosim_block(D, obj, text, rnd, nseq, length, state_attrs=None, input_filter=
     return None
 
 
+def strip_ids(text):
+    import re
+    return re.sub(r'_[0-9a-f]{4,}\b', '_#', text)
+
+
 def run_case(ctx, facts, name, build, rnd, nseq, length, state_attrs=None, where='', input_filter=None, shared=None):
     try:
         D = shared or Design(facts)
@@ -420,6 +436,25 @@ def run_case(ctx, facts, name, build, rnd, nseq, length, state_attrs=None, where
         ctx.violation('C02.a', '%s:%s' % (name, wit.get('output') or wit.get('variable') or 'x'), 'the transpiled module and the Python method diverge: %s' % wit['kind'], where,
                       witness=dict(wit, case=name, emitted=text[-700:]))
         return 'bad'
+    if state_attrs and shared is None:
+        # exporting a block that has been simulated: the module must still start from the constructor's state (it is compared with a fresh instance)
+        changed = False
+        for a in state_attrs:
+            v = obj.attrs.get(a)
+            if isinstance(v, int) and not isinstance(v, bool):
+                obj.attrs[a] = v + 1 + (len(a) % 3)
+                changed = True
+        if changed:
+            try:
+                st2, text2 = transpile(D, obj)
+            except (ElabError, NetError, PyExc):
+                st2, text2 = 'refused', ''
+            if st2 == 'ok' and strip_ids(text2) != strip_ids(text):
+                a_, b_ = strip_ids(text).splitlines(), strip_ids(text2).splitlines()
+                diff = [(x, y) for x, y in zip(a_, b_) if x != y][:3]
+                ctx.violation('C02.a', '%s:export-after-simulation' % name, 'the text emitted for a block depends on its momentary simulation state (power-up values are taken from the live object): '
+                              'exported after some cycles, the module no longer behaves like the block from power-up', where, witness=dict(case=name, differing_lines=diff))
+                return 'bad'
     ctx.ok('C02.a', name, '%d runs x %d steps: outputs%s agree' % (nseq, length, ' and state variables' if state_attrs else ''), grade='bounded')
     return 'ok'
 
